@@ -3,6 +3,7 @@ Helper lemmas for C19: counting over lists of potential-outcome records / observ
 field inequality behind the no-assumption bounds.
 -/
 import ZepidVerif.Model.Potential
+import ZepidVerif.Model.FrechetM
 import Mathlib.Algebra.Order.Field.Basic
 import Mathlib.Tactic.FieldSimp
 import Mathlib.Tactic.Ring
